@@ -232,6 +232,11 @@ class LeanSide:
         self.theorems = self.parse_theorems(pid)
         # the model of the translated functions is regenerated from /repo/src on every run
         import srctie
+        # every generated file is refreshed (proof modules import one another: a stale translation of another
+        # property's functions must never be what this build checks against)
+        for other in sorted(srctie.srcspecs.SPECS):
+            if other != pid:
+                srctie.generate(other)
         ok, notes = srctie.generate(pid)
         self.translation_notes = notes
         self.translated = [sp.name for sp in srctie.srcspecs.SPECS.get(pid, [])]
